@@ -212,8 +212,95 @@ def pad_p_vc(mode="constant"):
                            "values are moved, not computed: no float arithmetic involved"])
 
 
+def chunk_p_vc():
+    """P rung: chunk_by_slices (constant mode, lengths given) for SYMBOLIC batch size, extent, feature size, lengths and slice bounds -
+    any bounds: negative starts, ends beyond the length, empty and inverted slices. Same compaction contracts and the same
+    window-pair reasoning as pad_variable: source window = the part of the slice inside the sequence, [max(start, 0), min(end, len))
+    (empty when that is inverted), destination window = [left, left + its width) with left = the frames the slice starts before the
+    sequence. Postcondition at a skolem (n0, t0, f0): the reported length is max(end - start, 0); below it, out[n0, t0, f0] is
+    x[n0, start + t0, f0] when 0 <= start + t0 < len and `value` otherwise (the slice of the constant-padded sequence); from the
+    reported length on, `value`; the output extent covers every reported length."""
+    import pydrobert.torch._pad as P
+    from vf.pyvc import symtensor as stn
+
+    z = ip.to_z3
+    N, T, F, N0, T0, F0, N1, T1, F1 = z3.Ints("N T F n0 t0 f0 n1 t1 f1")
+    VAL = z3.Real("value")
+    Iz, Rz = z3.IntSort(), z3.RealSort()
+    X, LENS, SL = z3.Function("x", Iz, Iz, Iz, Rz), z3.Function("lens", Iz, Iz), z3.Function("slices", Iz, Iz, Iz)
+    LIN = z3.Function("lin_F", Iz, Iz)
+    mx_ = lambda a, b: z3.If(a >= b, a, b)
+    mn_ = lambda a, b: z3.If(a <= b, a, b)
+    ST_, EN = (lambda n: SL(n, 0)), (lambda n: SL(n, 1))
+    L = lambda n: LENS(n)
+    s0 = lambda n: mx_(ST_(n), 0)
+    e0 = lambda n: mn_(EN(n), L(n))
+    nonempty_src = lambda n: e0(n) > s0(n)
+    slo = lambda n: z3.If(nonempty_src(n), s0(n), 0)
+    shi = lambda n: z3.If(nonempty_src(n), e0(n), 0)
+    CL = lambda n: mx_(EN(n) - ST_(n), 0)
+    LP = lambda n: z3.If(CL(n) == 0, 0, mx_(-ST_(n), 0))
+    WID = lambda n: mx_(e0(n) - s0(n), 0)
+    dlo, dhi = LP, (lambda n: LP(n) + WID(n))
+    lens_ok = lambda n: z3.Implies(z3.And(0 <= n, n < N), z3.And(0 <= L(n), L(n) <= T))
+    lin_step = lambda i: LIN(i + 1) == LIN(i) + F
+    n_, i_ = z3.Ints("n_q i_q")
+
+    def thunk(I):
+        I.stubs.update(stn.stubs())
+        x = stn.ST((N, T, F), lambda a, b, c: X(z(a), z(b), z(c)), "float")
+        lens = stn.ST((N,), lambda a: LENS(z(a)), "long")
+        slices = stn.ST((N, 2), lambda a, b: SL(z(a), z(b)), "long")
+        for y in (lens_ok(N0), lens_ok(N1)):
+            I.ex.instance(y)
+        prove_pair = window_pair_prover(I, N, F, LIN, lin_step, lens_ok, (N0, T0, F0), (N1, T1, F1))
+        done = []
+
+        def hook(rec2, src):
+            rec1 = getattr(src, "compaction", None)
+            if rec1 is None or rec1["rank_"] != 3 or rec2["rank_"] != 3 or done:
+                raise ip.Unsupported("a masked_scatter the contract does not know (constant mode performs one, of the selected slice entries)")
+            I.ex.ghost["Tp"] = rec2["dims"][1]
+            prove_pair("slice", rec1, rec2, (slo, shi), (dlo, dhi), dlo)
+            done.append(1)
+            I.ex.ghost["scatters_done"] = 1
+
+        I.ex.ghost["scatter_hooks"] = [hook]
+        return I.call(P.chunk_by_slices, [x, slices, lens, "constant", VAL], {})
+
+    def post(p):
+        if not api.returns(p) or not isinstance(p.value, tuple) or len(p.value) != 2 or "Tp" not in p.ghost:
+            return False
+        out, clens = p.value
+        TP = p.ghost["Tp"]
+        if p.ghost.get("scatters_done") != 1:
+            return [("the_slice_entries_were_scattered", z3.BoolVal(False))]
+        at = z3.And(0 <= N0, N0 < N, 0 <= T0, T0 < TP, 0 <= F0, F0 < F)
+        o = z(out.elem(N0, T0, F0))
+        j = ST_(N0) + T0
+        for mx in p.ghost.get("maxes", []):
+            pass
+        return [("result_shape", z3.And(z3.BoolVal(len(out.shape) == 3 and len(clens.shape) == 1), z(out.shape[0]) == N, z(out.shape[1]) == TP, z(out.shape[2]) == F, z(clens.shape[0]) == N)),
+                ("reported_length_is_the_requested_one", z3.Implies(z3.And(0 <= N0, N0 < N), z3.And(z(clens.elem(N0)) == CL(N0), CL(N0) <= TP))),
+                ("inside_the_sequence_the_slice_is_copied", z3.Implies(z3.And(at, T0 < CL(N0), 0 <= j, j < L(N0)), o == X(N0, j, F0))),
+                ("outside_the_sequence_the_padding_value", z3.Implies(z3.And(at, T0 < CL(N0), z3.Not(z3.And(0 <= j, j < L(N0)))), o == VAL)),
+                ("beyond_the_reported_length_the_padding_value", z3.Implies(z3.And(at, T0 >= CL(N0)), o == VAL))]
+
+    pre = [N >= 1, T >= 0, F >= 1, z3.ForAll([n_], lens_ok(n_)), LIN(0) == 0, z3.ForAll([i_], lin_step(i_))]
+    return VC("C09.P.chunk_by_slices", "chunk_by_slices[constant; symbolic N, T, F, lengths, slice bounds]", M, "chunk_by_slices", thunk, pre=pre, posts=[("per_sequence_slice", post)],
+              inputs={"N": N, "T": T, "F": F}, timeout_ms=40000, max_paths=64, witness_hints=[N == 1, T == 2, F == 1],
+              assumptions=["masked_select / masked_scatter = stable row-major compaction, stated through per-dimension counters (assumed contract of vf/pyvc/symtensor.py, differentially tested against torch); max over a vector = an attained upper bound (assumed contract)",
+                           "lengths within [0, T]: precondition; slice bounds arbitrary integers; lin_F(i) = i * F by its recurrence (definition)",
+                           "the inductions (coefficients, frames, sequences) are applied outside the solver: base and step are obligations",
+                           "mode 'constant' with lengths given (reflect / replicate and omitted lengths: bounded driver); values are moved, not computed"])
+
+
 def pad_p_vcs(ctx):
     return [pad_p_vc("constant"), pad_p_vc("reflect"), pad_p_vc("replicate")]
+
+
+def chunk_p_vcs(ctx):
+    return [chunk_p_vc()]
 
 
 def shift_vc(training):
